@@ -329,6 +329,47 @@ func c16Structure(c *Ctx) {
 			} else {
 				okArms = false
 			}
+			if sp, ok := start.(*ssa.Phi); ok && !(okArms && len(arms) == 2) {
+				// the admitted lengths as value sets: the lengths with which each edge into the start of the loop can be
+				// taken (a guard `len != 3 && len != 4` followed by `if len == 3` leaves {4} on the other edge)
+				lf := w.newByteFlow(mh, func(v ssa.Value) bool {
+					la := lenArg(v)
+					return la != nil && (la == serial || w.SameValue(mh, la, serial))
+				}, nil)
+				arms2 := map[int64]int64{}
+				if app != nil {
+					app.nPad = 0 // counted again below
+				}
+				ok2 := !lf.Mentioned.has(255) // every compared constant is below the saturation point of the domain
+				for i, e := range sp.Edges {
+					set := lf.onEdge(sp.Block().Preds[i], sp.Block())
+					if set.empty() {
+						continue
+					}
+					off := lin(w, e, func(ssa.Value) string { return "" })
+					if app != nil {
+						k, ok := app.padOf(e)
+						if !ok {
+							ok2 = false
+							continue
+						}
+						off = linForm{c: k, terms: map[string]int64{}}
+					}
+					if len(off.terms) != 0 || set.count() > 8 {
+						ok2 = false
+						continue
+					}
+					for _, ln := range set.list() {
+						if prev, dup := arms2[ln]; dup && prev != off.c {
+							ok2 = false
+						}
+						arms2[ln] = off.c
+					}
+				}
+				if ok2 && len(arms2) > 0 {
+					okArms, arms = true, arms2
+				}
+			}
 			good := okArms && len(arms) == 2 && arms[3] == 2 && arms[4] == 0
 			for ln, off := range arms {
 				if 2*ln+off != dstLen {
